@@ -129,7 +129,9 @@ Inductive case :=
 (** the unpermuted tree built by build_contraction_tree *)
 | CBuild (n : ndesc) (s : scaffold) (res : option tree)
 (** ContractionTreeNode.permute_axes on the node reached by [path] (true = left child) *)
-| CPerm (t : tree) (path : list bool) (p : list nat) (res : option tree).
+| CPerm (t : tree) (path : list bool) (p : list nat) (res : option tree)
+(** the verified checker (TNTreeCheck.check_root_sound) on a tree, e.g. after permute_axes *)
+| CChk (n : ndesc) (t : tree) (amap : list nat) (expect : bool).
 
 Definition check (c : case) : bool :=
   match c with
@@ -172,6 +174,7 @@ Definition check (c : case) : bool :=
       end
   | CBuild d s res => opt_eqb tree_eqb (build_contraction_tree (mk_net d) s) res
   | CPerm t path p res => opt_eqb tree_eqb (permute_axes t path p) res
+  | CChk d t amap expect => Bool.eqb (check_root (mk_net d) t amap) expect
   end.
 
 Definition bad_cases (cs : list (nat * case)) : list nat :=
